@@ -14,6 +14,7 @@ PROPS = {
     "C02": P(gomaxprocs=[1, 2, 4, 4]),
     "C03": P(shards={"quick": 16, "thorough": 16}),
     "C19": P(),
+    "C04": P(),
     "C05": P(),
     "C06": P(),
     "C20": P(),
